@@ -67,12 +67,14 @@ class AwesomeyamlLoader(yaml.Loader):
         update_fn(value)
 
     def construct_object(self, node, deep=False, convert=True):
-        if convert and isinstance(node, (yaml.SequenceNode, yaml.MappingNode)) and node in self.constructed_objects:
+        if convert and node in self.constructed_objects:
             # constructed again: every alias (*name) refers to the yaml node of its anchor, and pyyaml hands back what it has made of it
             # the first time - an untagged container possibly still empty (see below), a container made by a merge-control tag as
             # the one object for all places
             known = self.constructed_objects[node]
-            if not isinstance(known, ConfigNode) or known._is_plain_composed():
+            if self._acts_where_it_stands(known):
+                return self._construct_again(node)
+            if isinstance(node, (yaml.SequenceNode, yaml.MappingNode)) and (not isinstance(known, ConfigNode) or known._is_plain_composed()):
                 return self._construct_again(node)
 
         queued = len(self.state_generators)
@@ -92,6 +94,18 @@ class AwesomeyamlLoader(yaml.Loader):
 
         return aynode
 
+    @staticmethod
+    def _acts_where_it_stands(known):
+        ''' Nodes which do their work before merging, on the path they stand at (!append, !extend, !clear, !prev, !include):
+            each place an alias puts one in needs a node of its own (their result is remembered per node).
+        '''
+        from .nodes.append import AppendNode
+        from .nodes.extend import ExtendNode
+        from .nodes.clear import ClearNode
+        from .nodes.prev import PrevNode
+        from .nodes.include import IncludeNode
+        return isinstance(known, (AppendNode, ExtendNode, ClearNode, PrevNode, IncludeNode))
+
     def _construct_again(self, node):
         ''' Plain data below an alias is constructed afresh, as if the text of the anchor had been written in its place: the places
             share nothing, so merging into one of them - or a tag above one of them - does not show at the others.
@@ -101,6 +115,8 @@ class AwesomeyamlLoader(yaml.Loader):
 
         def shared(n):
             known = self.constructed_objects.get(n)
+            if self._acts_where_it_stands(known):
+                return False
             return isinstance(known, ConfigNode) and not known._is_plain_composed() and id(n) in aliased # a dynamic node with an alias of its own
 
         below = []
